@@ -120,6 +120,10 @@ impl<H: Hasher> BatchMerkleProof<H> {
         if indexes.len() != leaves.len() {
             return Err(MerkleTreeError::InvalidProof);
         }
+        // a tree of this depth could not be indexed; the depth may come from an untrusted source
+        if self.depth as u32 >= usize::BITS {
+            return Err(MerkleTreeError::InvalidProof);
+        }
 
         let mut buf = [H::Digest::default(); 2];
         let mut v = BTreeMap::new();
@@ -262,6 +266,10 @@ impl<H: Hasher> BatchMerkleProof<H> {
             return Err(MerkleTreeError::TooFewLeafIndexes);
         }
         if indexes.len() != leaves.len() {
+            return Err(MerkleTreeError::InvalidProof);
+        }
+        // a tree of this depth could not be indexed; the depth may come from an untrusted source
+        if self.depth as u32 >= usize::BITS {
             return Err(MerkleTreeError::InvalidProof);
         }
 
